@@ -335,6 +335,17 @@ def ret_after(x=None, delay=0.2):
     return 5
 
 
+def linger_ret(x=None, ready_file=None):
+    """Returns at once but leaves a non-daemon thread behind: the work is over, the process stays."""
+    import time as _t
+    import threading as _th
+    _th.Thread(target=_t.sleep, args=(3600,)).start()
+    if ready_file:
+        with open(ready_file, 'w') as f:
+            f.write('r')
+    return 5
+
+
 def raise_soon(x=None, ready_file=None):
     """Tells the harness it has started and dies of an exception right away: the caller meets a worker which is going down."""
     if ready_file:
